@@ -251,8 +251,10 @@ package gtab
 //@ assume func (ll LookupList) tryReorder(chunks []layoutChunk) (res []layoutChunk)
 //@   ensures isnil(res) || fresh(res)
 //@   modifies nothing
-//@ assume func (l *extensionSubtable) encode() (res []byte)
-//@   ensures fresh(res) && len(res) == 8
+//@ func (l *extensionSubtable) encode() (res []byte)   props: C08
+//@   requires l != nil
+//@   ensures fresh(res) && len(res) == 8 && be16(res, 0) == 1 && be16(res, 2) == l.ExtensionLookupType
+//@   ensures 0 <= l.ExtensionOffset && l.ExtensionOffset <= 4294967295 ==> be32(res, 4) == l.ExtensionOffset
 //@   modifies nothing
 //@ assume func (s Subtable) encodeLen() (n int)
 //@   ensures 0 <= n && n <= 4294967295
@@ -1175,3 +1177,18 @@ package gtab
 //@     invariant K && fresh(offsets) && len(offsets) == ligCount && fresh(ligArray) && len(ligArray) == ligCount && fresh(anchorOffsets) && len(anchorOffsets) == componentCount * markClassCount && fresh(ligAttach) && len(ligAttach) == componentCount && 0 <= i && i < ligCount && ligAttachPos >= 0 && ligAttachPos <= 4611686018427518974
 //@   loop 4
 //@     invariant K && fresh(offsets) && len(offsets) == ligCount && fresh(ligArray) && len(ligArray) == ligCount && fresh(anchorOffsets) && len(anchorOffsets) == componentCount * markClassCount && fresh(ligAttach) && len(ligAttach) == componentCount && fresh(row) && len(row) == markClassCount && 0 <= i && i < ligCount && 0 <= j && j < componentCount && ligAttachPos >= 0 && ligAttachPos <= 4611686018427518974
+
+// readExtensionSubtable: the extension record (type and 32-bit offset) as stored.
+//@ func readExtensionSubtable(p *parser.Parser, pos int64) (s Subtable, err error)   props: C02 C18
+//@   requires parser.inv(p)
+//@   ensures err == nil ==> parser.inv(p) && s != nil && is(s, *extensionSubtable) && s.(*extensionSubtable) != nil && 0 <= s.(*extensionSubtable).ExtensionOffset && s.(*extensionSubtable).ExtensionOffset <= 4294967295
+//@   ensures p.r == old(p.r) && faults(p.r) >= old(faults(p.r)) && (faults(p.r) > old(faults(p.r)) ==> err != nil)
+//@   modifies p.*, allelems(byte), rpos(p.r), faults(p.r)
+
+// readGposSubtable dispatches like readGsubSubtable (same functype).
+//@ func readGposSubtable(p *parser.Parser, pos int64, meta *LookupMetaInfo) (s Subtable, err error)   props: C02 C18
+//@   requires parser.inv(p) && meta != nil && pos >= 0 && pos <= 4611686018427387904
+//@   requires forall k uint16 :: has(gposReaders, k) ==> gposReaders[k] != nil   // the package-level table holds functions only (its initialiser; not checked)
+//@   ensures err == nil ==> parser.inv(p) && s != nil && (is(s, *extensionSubtable) ==> s.(*extensionSubtable) != nil)
+//@   ensures p.r == old(p.r) && faults(p.r) >= old(faults(p.r)) && (faults(p.r) > old(faults(p.r)) ==> err != nil)
+//@   modifies p.*, allelems(byte), rpos(p.r), faults(p.r)
